@@ -51,6 +51,8 @@ type Exec struct {
 	Instrs     int
 	PermuteMaps bool
 	NoArrMaps  bool
+	GlobalInit map[string]func(ex *Exec, st *State) Value // models of package-level data of packages whose init is not run
+	Decoded    Value                                       // value registered by verifrt.TOMLBytes for the decoder stubs
 	Params     map[string]int
 	Known      []KnownPred
 	Notes      []string
@@ -63,6 +65,7 @@ func NewExec(prog *ssa.Program, modPrefix string) *Exec {
 		globals: map[*ssa.Global]int{}, globalByID: map[int]*ssa.Global{},
 		pdom: map[*ssa.Function][]*ssa.BasicBlock{}, Stubs: map[string]StubFn{}, Interp: map[string]bool{},
 		Encoded: map[string]bool{}, StubsUsed: map[string]int{}, initDone: map[*ssa.Package]bool{},
+		GlobalInit: map[string]func(ex *Exec, st *State) Value{},
 	}
 	registerStubs(ex)
 	return ex
@@ -84,7 +87,12 @@ func (ex *Exec) get(st *State, id int) Value {
 		return v
 	}
 	if g, ok := ex.globalByID[id]; ok {
-		v := ex.zero(g.Type().(*types.Pointer).Elem())
+		var v Value
+		if init, ok := ex.GlobalInit[g.String()]; ok {
+			v = init(ex, st)
+		} else {
+			v = ex.zero(g.Type().(*types.Pointer).Elem())
+		}
 		st.heap[id] = v
 		return v
 	}
@@ -404,6 +412,10 @@ func (ex *Exec) CallFn(st *State, site ssa.Instruction, fn *ssa.Function, args [
 		return stub(ex, st, site, fn, args)
 	}
 	if fn.Synthetic == "package initializer" && !ex.isUnderTest(fn) {
+		return nil
+	}
+	if fn.Pkg != nil && fn.Pkg.Pkg.Name() == "main" && strings.HasPrefix(fn.Name(), "init#") {
+		ex.Notes = append(ex.Notes, "skipped "+name+" (command-line set-up of package main)")
 		return nil
 	}
 	if fn.Blocks == nil {
